@@ -23,6 +23,7 @@ import (
 	cmtproto "github.com/cometbft/cometbft/proto/tendermint/types"
 	sdk "github.com/cosmos/cosmos-sdk/types"
 	banktypes "github.com/cosmos/cosmos-sdk/x/bank/types"
+	slashingtypes "github.com/cosmos/cosmos-sdk/x/slashing/types"
 	stakingtypes "github.com/cosmos/cosmos-sdk/x/staking/types"
 
 	tsslib "github.com/bandprotocol/chain/v3/pkg/tss"
@@ -58,6 +59,9 @@ type twin struct {
 	accs    []bandtesting.Account
 	grp     *tssfx.Group // the current bandtss signing group (same on both replicas), or nil
 	pickFee int
+	lastDel map[string]int // account -> validator index of its most recent MsgDelegate
+	// infractions: absent votes are reported, double-sign evidence arrives, and the downtime window is short
+	infractions bool
 	r0      int // fee payer funding of the pre-created tunnel
 }
 
@@ -126,7 +130,7 @@ func (t *twin) randMsg() (sdk.Msg, bandtesting.Account) {
 			return m, a
 		}
 	}
-	switch r.Intn(28) {
+	switch r.Intn(31) {
 	case 0, 1:
 		if adv {
 			return oracletypes.NewMsgRequestData(oracletypes.OracleScriptID(r.Range(0, 5)), r.Bytes(r.Range(0, 20)), uint64(r.Range(0, 4)), uint64(r.Range(0, 4)), rstr(r), coins(r),
@@ -256,9 +260,26 @@ func (t *twin) randMsg() (sdk.Msg, bandtesting.Account) {
 	case 21:
 		return banktypes.NewMsgSend(acct.Address, t.accs[r.Intn(len(t.accs))].Address, coins(r)), acct
 	case 22:
+		t.lastDel[acct.Address.String()] = vi
 		return stakingtypes.NewMsgDelegate(acct.Address.String(), val.ValAddress.String(), sdk.NewInt64Coin("uband", int64(r.PickInt(1, 1000, 1_000_000, 50_000_000)))), acct
+	case 28, 29:
+		// moving a delegation between validators (the restake hooks see the source shrink and the destination grow; a later
+		// slash of the source reaches the moved part through staking.SlashRedelegation)
+		dst := bandtesting.Validators[r.Intn(len(bandtesting.Validators))]
+		if i, ok := t.lastDel[acct.Address.String()]; ok && r.Chance(3, 4) {
+			val = bandtesting.Validators[i] // mostly from a validator the account has delegated to
+		} else {
+			for i, v := range bandtesting.Validators {
+				if v.Address.Equals(acct.Address) && r.Chance(3, 4) {
+					val = bandtesting.Validators[i] // a validator account moves (part of) its self-delegation
+				}
+			}
+		}
+		return stakingtypes.NewMsgBeginRedelegate(acct.Address.String(), val.ValAddress.String(), dst.ValAddress.String(), sdk.NewInt64Coin("uband", int64(r.PickInt(1, 1000, 1_000_000, 50_000_000)))), acct
+	case 30:
+		return slashingtypes.NewMsgUnjail(val.ValAddress.String()), val
 	default:
-		return stakingtypes.NewMsgUndelegate(acct.Address.String(), val.ValAddress.String(), sdk.NewInt64Coin("uband", int64(r.PickInt(1, 1000, 1_000_000)))), acct
+		return stakingtypes.NewMsgUndelegate(acct.Address.String(), val.ValAddress.String(), sdk.NewInt64Coin("uband", int64(r.PickInt(1, 1000, 1_000_000, 50_000_000)))), acct
 	}
 }
 
@@ -469,12 +490,24 @@ func (t *twin) block(tr *fx.Trace) bool {
 		txs = append(txs, r.Bytes(r.Range(1, 80))) // undecodable bytes
 	}
 	var votes []abci.VoteInfo
-	for _, v := range bandtesting.Validators {
-		if r.Chance(5, 6) {
+	for i, v := range bandtesting.Validators {
+		if r.Chance(5, 6) || (t.infractions && i == 0) {
 			votes = append(votes, abci.VoteInfo{Validator: abci.Validator{Address: v.PubKey.Address(), Power: t.powers[len(votes)%len(t.powers)]}, BlockIdFlag: cmtproto.BlockIDFlagCommit})
+		} else if t.infractions {
+			// reported as absent: the slashing module counts the miss (validator 0 always signs, so the set never empties)
+			votes = append(votes, abci.VoteInfo{Validator: abci.Validator{Address: v.PubKey.Address(), Power: t.powers[len(votes)%len(t.powers)]}, BlockIdFlag: cmtproto.BlockIDFlagAbsent})
 		}
 	}
-	req := &abci.RequestFinalizeBlock{Height: t.height, Time: t.now, Txs: txs, Hash: r.Bytes(32),
+	var evidence []abci.Misbehavior
+	if t.infractions && t.height > 3 && r.Chance(1, 10) {
+		// evidence of a double sign by validator 1 or 2 at a recent height
+		v := bandtesting.Validators[r.Range(1, len(bandtesting.Validators)-1)]
+		back := int64(r.Range(1, 3))
+		evidence = append(evidence, abci.Misbehavior{Type: abci.MisbehaviorType_DUPLICATE_VOTE, Validator: abci.Validator{Address: v.PubKey.Address(), Power: r.PickI64(1, 30, 100, 1_000_000)},
+			Height: t.height - back, Time: t.now.Add(-time.Duration(back) * time.Second), TotalVotingPower: 200})
+		tr.Tag("evidence")
+	}
+	req := &abci.RequestFinalizeBlock{Height: t.height, Time: t.now, Txs: txs, Hash: r.Bytes(32), Misbehavior: evidence,
 		ProposerAddress: bandtesting.Validators[int(t.height)%len(bandtesting.Validators)].PubKey.Address(), DecidedLastCommit: abci.CommitInfo{Votes: votes}}
 	type outT struct {
 		err  string
@@ -542,6 +575,10 @@ func main() {
 		probeSampling(a.Seed, a.Mode == "probe-sampling-control")
 		return
 	}
+	if a.Mode == "probe-slash" || a.Mode == "probe-slash-control" {
+		probeSlash(a.Seed, a.Mode == "probe-slash-control")
+		return
+	}
 	tr := fx.NewTrace(a.Out)
 	if a.Mode == "probes" {
 		runProbes(tr, a.Seed)
@@ -556,7 +593,7 @@ func main() {
 	r := fx.NewRng(a.Seed)
 	for c := 0; c < n; c++ {
 		A, B := fx.NewApp(), fx.NewApp()
-		t := &twin{a: A, b: B, r: r.Fork(), height: A.LastBlockHeight(), now: time.Unix(1_700_000_000, 0).UTC(), seqs: map[string]uint64{},
+		t := &twin{a: A, b: B, r: r.Fork(), height: A.LastBlockHeight(), now: time.Unix(1_700_000_000, 0).UTC(), seqs: map[string]uint64{}, lastDel: map[string]int{},
 			accs: []bandtesting.Account{bandtesting.Alice, bandtesting.Bob, bandtesting.Carol, bandtesting.Owner, bandtesting.Validators[0], bandtesting.Validators[1], bandtesting.Validators[2]}}
 		t.pickFee = t.r.PickInt(0, 1, 10, 1000)
 		t.r0 = t.r.PickInt(0, 20_000, 5_000_000, 1_000_000_000)
@@ -620,6 +657,20 @@ func main() {
 		}
 		if t.r.Chance(2, 3) {
 			t.shortPeriods(tr) // periodic begin/end-block work happens within the case
+		}
+		if t.r.Chance(1, 3) {
+			// validators 1 and 2 miss blocks and double-sign within the case: a short downtime window on both replicas
+			t.infractions = true
+			win, jail := int64(t.r.Range(4, 10)), time.Duration(t.r.PickInt(1, 5, 30))*time.Second
+			dt, ds := sdkmath.LegacyNewDecWithPrec(int64(t.r.PickInt(1, 10, 50)), 2), sdkmath.LegacyNewDecWithPrec(int64(t.r.PickInt(5, 50, 100)), 2)
+			for _, app := range []*fx.App{A, B} {
+				sctx := app.BaseApp.NewUncachedContext(false, cmtproto.Header{Height: t.height, Time: t.now, ChainID: bandtesting.ChainID})
+				sp, err := app.SlashingKeeper.GetParams(sctx)
+				fx.Must(err)
+				sp.SignedBlocksWindow, sp.MinSignedPerWindow, sp.DowntimeJailDuration, sp.SlashFractionDowntime, sp.SlashFractionDoubleSign = win, sdkmath.LegacyNewDecWithPrec(5, 1), jail, dt, ds
+				fx.Must(app.SlashingKeeper.SetParams(sctx, sp))
+			}
+			tr.Tag("with-infractions")
 		}
 		blocks := 60
 		if a.Tier == "thorough" {
@@ -701,6 +752,67 @@ func probeSampling(seed uint64, control bool) {
 	fmt.Println("PROBE done")
 }
 
+// probeSlash (child process): a delegator redelegates from validator A to validator B, votes in feeds with its whole
+// bonded power (which locks that power in the restake vault of feeds), and then evidence of a double sign by A at a
+// height before the redelegation arrives.  staking.Slash → SlashRedelegation unbonds the slashed part of the moved
+// delegation from B through Keeper.Unbond, which runs the staking hooks.  The control run is the same history
+// without the vote.  Prints PROBE lines.
+func probeSlash(seed uint64, control bool) {
+	A := fx.NewApp()
+	defer A.Close()
+	t := &twin{a: A, b: A, r: fx.NewRng(seed), height: A.LastBlockHeight(), now: time.Unix(1_700_000_000, 0).UTC(), seqs: map[string]uint64{},
+		accs: []bandtesting.Account{bandtesting.Alice}, powers: []int64{100, 1, 99}}
+	blockOf := func(ev []abci.Misbehavior, txs ...[]byte) string {
+		t.height++
+		t.now = t.now.Add(3 * time.Second)
+		var votes []abci.VoteInfo
+		for i, v := range bandtesting.Validators {
+			votes = append(votes, abci.VoteInfo{Validator: abci.Validator{Address: v.PubKey.Address(), Power: t.powers[i%3]}, BlockIdFlag: cmtproto.BlockIDFlagCommit})
+		}
+		req := &abci.RequestFinalizeBlock{Height: t.height, Time: t.now, Txs: txs, Hash: make([]byte, 32), Misbehavior: ev,
+			ProposerAddress: bandtesting.Validators[0].PubKey.Address(), DecidedLastCommit: abci.CommitInfo{Votes: votes}}
+		return fx.Try(func() error {
+			res, err := A.FinalizeBlock(req)
+			if err == nil {
+				for _, x := range res.TxResults {
+					fmt.Printf("PROBE tx code=%d codespace=%s log=%q\n", x.Code, x.Codespace, x.Log)
+				}
+				_, err = A.Commit()
+			}
+			return err
+		})
+	}
+	del := bandtesting.Alice
+	vA, vB := bandtesting.Validators[1], bandtesting.Validators[2]
+	amt := sdk.NewInt64Coin("uband", 500_000)
+	fmt.Println("PROBE delegate err=" + blockOf(nil, t.sign(del, 1_000_000, stakingtypes.NewMsgDelegate(del.Address.String(), vA.ValAddress.String(), amt))))
+	infractionHeight, infractionTime := t.height, t.now
+	fmt.Println("PROBE empty err=" + blockOf(nil))
+	fmt.Println("PROBE redelegate err=" + blockOf(nil, t.sign(del, 1_000_000, stakingtypes.NewMsgBeginRedelegate(del.Address.String(), vA.ValAddress.String(), vB.ValAddress.String(), amt))))
+	if !control {
+		fmt.Println("PROBE vote err=" + blockOf(nil, t.sign(del, 1_000_000, feedstypes.NewMsgVote(del.Address.String(), []feedstypes.Signal{feedstypes.NewSignal("CS:BTC-USD", amt.Amount.Int64())}))))
+	} else {
+		fmt.Println("PROBE vote err=" + blockOf(nil))
+	}
+	ctx := A.BaseApp.NewUncachedContext(false, cmtproto.Header{Height: t.height, Time: t.now, ChainID: bandtesting.ChainID})
+	locked := "0"
+	if l, err := A.RestakeKeeper.GetLockedPower(ctx, del.Address, feedstypes.ModuleName); err == nil {
+		locked = l.String()
+	}
+	bonded, _ := A.StakingKeeper.GetDelegatorBonded(ctx, del.Address)
+	fmt.Printf("PROBE locked=%s bonded=%s\n", locked, bonded.String())
+	valA, _ := A.StakingKeeper.GetValidator(ctx, vA.ValAddress)
+	ev := []abci.Misbehavior{{Type: abci.MisbehaviorType_DUPLICATE_VOTE, Validator: abci.Validator{Address: vA.PubKey.Address(), Power: valA.GetConsensusPower(sdk.DefaultPowerReduction)},
+		Height: infractionHeight, Time: infractionTime, TotalVotingPower: 200}}
+	os.Stdout.Sync()
+	fmt.Println("PROBE evidence err=" + blockOf(ev))
+	ctx = A.BaseApp.NewUncachedContext(false, cmtproto.Header{Height: t.height, Time: t.now, ChainID: bandtesting.ChainID})
+	valA, _ = A.StakingKeeper.GetValidator(ctx, vA.ValAddress)
+	bonded, _ = A.StakingKeeper.GetDelegatorBonded(ctx, del.Address)
+	fmt.Printf("PROBE after jailedA=%v bonded=%s\n", valA.IsJailed(), bonded.String())
+	fmt.Println("PROBE done")
+}
+
 // runProbes runs directed scenarios that cannot share a process with the random cases.
 func runProbes(tr *fx.Trace, seed uint64) {
 	one := func(mode string) (accepted string, finished bool, log []string) {
@@ -734,4 +846,23 @@ func runProbes(tr *fx.Trace, seed uint64) {
 	v, f, l := one("probe-sampling")
 	tr.Op(fx.M{"op": "probe", "name": "oracle.SamplingTryCount", "control": false, "value": v,
 		"out": fx.M{"acceptedByValidate": v != "" && v != "0", "finished": f, "log": l}})
+	// directed history: slash of a redelegation whose delegator has locked its whole power
+	for _, control := range []bool{true, false} {
+		mode := "probe-slash"
+		if control {
+			mode += "-control"
+		}
+		_, fin, lg := one(mode)
+		errs, slashed := "", false
+		for _, ln := range lg {
+			if strings.HasPrefix(ln, "PROBE evidence err=") {
+				errs = strings.TrimPrefix(ln, "PROBE evidence err=")
+			}
+			if strings.HasPrefix(ln, "PROBE after jailedA=true") {
+				slashed = true
+			}
+		}
+		tr.Op(fx.M{"op": "scenario", "name": "slash-of-locked-redelegation", "control": control,
+			"out": fx.M{"finished": fin, "err": errs, "slashed": slashed, "log": lg}})
+	}
 }
